@@ -91,6 +91,8 @@ pub enum Class {
     Filler,
     Punct,
     Raw,
+    /// a token made of ASCII digits only (already a numeral; not a number word, not alphabetic)
+    Digits,
 }
 #[derive(Clone, Debug, PartialEq, Eq, Hash, Serialize, Deserialize)]
 pub struct Item {
@@ -126,7 +128,8 @@ pub enum Mode {
     Dirty,
 }
 
-pub const RAW_POOL: [&str; 40] = [
+pub const RAW_POOL: [&str; 48] = [
+    "\u{2010}", "a\u{2011}b", "\u{ad}", "–", "—", "\u{2212}", "\u{feff}x", "“q”",
     "", " ", "-", "--", "'", "''", "-'", "a-", "-a", "\u{301}", "e\u{301}", "١٢٣", "１２", "²", "½", "\u{200b}", "\u{feff}", "\0", "ß", "İ", "ǅ", "ﬁ", "ſ", "K", "Ω",
     "𝟘", "x", "12", "3.5", "٣", "日本", "Ⅻ", "a\u{30a}", "\u{1f600}", "\u{e000}", "\u{2028}", "\r\n", "\u{85}", "o'", "'o",
 ];
@@ -178,6 +181,8 @@ fn build_items(lang: &str, mode: Mode, raw: Vec<RawItem>, out: &mut Vec<Item>) {
                     "it" => &["milioni", "miliardi", "bilioni"],
                     "nl" => &["miljoen", "miljard", "biljoen"],
                     "pt" => &["milhões", "biliões"],
+                    "en" => &["thousand", "million", "billion"],
+                    "fr" => &["mille", "millions", "milliard"],
                     _ => &[],
                 };
                 if extra[7] < 21 && !chain.is_empty() {
@@ -188,6 +193,12 @@ fn build_items(lang: &str, mode: Mode, raw: Vec<RawItem>, out: &mut Vec<Item>) {
                         push(chain[extra[6] as usize / 2 % (chain.len() - 1)].to_string(), Class::Num, out);
                     }
                     push(chain[chain.len() - 1].to_string(), Class::Num, out);
+                    // low-order digits after the chain: values above 2^53 that are not exactly representable
+                    if extra[5] & 1 == 0 {
+                        for w in spell::cardinal(lang, 1 + (n / 1000) % 999, &mut ch) {
+                            push(w, Class::Num, out);
+                        }
+                    }
                 } else {
                     for w in spell::cardinal(lang, n, &mut ch) {
                         push(w, Class::Num, out);
@@ -220,9 +231,10 @@ fn build_items(lang: &str, mode: Mode, raw: Vec<RawItem>, out: &mut Vec<Item>) {
                 push("neuf".to_string(), Class::Num, out);
             }
             57..=71 => push(v.fillers[idx(a, v.fillers.len())].to_string(), Class::Filler, out),
-            72..=77 => push(v.conj.to_string(), Class::Conj, out),
+            72..=77 => push(v.conj_alts[idx(a, v.conj_alts.len())].to_string(), Class::Conj, out),
             78..=82 => push(v.sep.to_string(), Class::Sep, out),
-            83..=88 => push(v.zeros[idx(a, v.zeros.len())].to_string(), Class::Zero, out),
+            83..=87 => push(v.zeros[idx(a, v.zeros.len())].to_string(), Class::Zero, out),
+            88 => push(["7", "12", "500", "2024", "007", "1000000", "3", "0"][idx(a, 8)].to_string(), Class::Digits, out),
             89 => {
                 if mode == Mode::Dirty {
                     push(RAW_POOL[idx(a, RAW_POOL.len())].to_string(), Class::Raw, out)
@@ -238,7 +250,9 @@ fn build_items(lang: &str, mode: Mode, raw: Vec<RawItem>, out: &mut Vec<Item>) {
                         prev.join = String::new();
                     }
                 }
-                out.push(Item { text: p, class: Class::Punct, join: join_s.clone() });
+                // opening quotes / brackets stick to the following word
+                let own_join = if matches!(p.as_str(), "'" | "(" | "—") && b & 12 == 0 { String::new() } else { join_s.clone() };
+                out.push(Item { text: p, class: Class::Punct, join: own_join });
             }
         }
         if mode == Mode::Dirty && kind < 90 && extra[9] >= 250 {
